@@ -1022,7 +1022,63 @@ pub fn run(seed: u64, profile: &ConcProfile, replay: Option<Vec<u16>>) -> RunRep
                             (Some(a), Some(b)) => (Some(a.clone()), Some(b.clone())),
                             _ => (None, None),
                         };
+                        let norm_a_orig = norm_a.clone();
                         let (norm_a, norm_b) = aligned;
+                        // The serial execution C18 speaks of contains the
+                        // background tasks as well: if the state differs,
+                        // look for one in which the tasks ran between the
+                        // calls - after every call, or after one of them.
+                        let mut explained_by_tasks = false;
+                        if profile.with_scheduler && norm_a != norm_b {
+                            if let (Some(a_orig), true) = (&norm_a_orig, same_results) {
+                                let n = order.len();
+                                let mut variants: Vec<Vec<bool>> = vec![vec![true; n]];
+                                for k in 0..n.saturating_sub(1) {
+                                    let mut v = vec![false; n];
+                                    v[k] = true;
+                                    variants.push(v);
+                                }
+                                for (vi, pumps) in variants.into_iter().enumerate() {
+                                    let (p2, base_v, order2) = (
+                                        profile.clone(),
+                                        base.join(format!("V{vi}")),
+                                        order.clone(),
+                                    );
+                                    let out = std::thread::Builder::new()
+                                        .stack_size(32 * 1024 * 1024)
+                                        .spawn(move || run_witness_with_tasks(
+                                            seed, &p2, &base_v, &order2, &pumps
+                                        ))
+                                        .expect("spawn witness").join()
+                                        .unwrap_or_else(|p| Err(
+                                            crate::util::panic_message(&p)
+                                        ));
+                                    *report.stats.entry(
+                                        "witness.task_variants_tried".into()
+                                    ).or_insert(0) += 1;
+                                    if let Ok(w) = out {
+                                        if w.digest != digest_a
+                                            || w.results != results_a
+                                        {
+                                            continue
+                                        }
+                                        if let Some(nb) = &w.norm {
+                                            let (b2, a2) = crate::cuts::align_recreated(nb, a_orig);
+                                            if a2 == b2 {
+                                                explained_by_tasks = true;
+                                                report.stats.insert(
+                                                    "witness.matched_with_tasks".into(), 1
+                                                );
+                                                break
+                                            }
+                                        }
+                                    }
+                                }
+                            }
+                        }
+                        let (norm_a, norm_b) = if explained_by_tasks {
+                            (None, None)
+                        } else { (norm_a, norm_b) };
                         if let (Some(a), Some(b)) = (&norm_a, &norm_b) {
                             if a != b && std::env::var_os("VERIF_DEBUG").is_some() {
                                 eprintln!(
@@ -1224,17 +1280,34 @@ fn run_witness(
     seed: u64, profile: &ConcProfile, base: &std::path::Path,
     order: &[(usize, usize)],
 ) -> Result<WitnessOut, String> {
+    run_witness_with_tasks(seed, profile, base, order, &[])
+}
+
+/// As `run_witness`; after the k-th call the background tasks run until
+/// nothing is due if `pumps[k]` is set (the serial execution of C18 is one
+/// of calls *and* tasks).
+fn run_witness_with_tasks(
+    seed: u64, profile: &ConcProfile, base: &std::path::Path,
+    order: &[(usize, usize)], pumps: &[bool],
+) -> Result<WitnessOut, String> {
     let Built { runner: mut rb, thread_ops: ops_b, digest, .. }
         = build(seed, profile, base)?;
     let before_b = versions(&rb);
     let mgr_b = rb.world.inst(0).mgr().clone();
     rb.world.inst(0).enter();
     let mut results = BTreeMap::new();
-    for (t, i) in order {
+    for (pos, (t, i)) in order.iter().enumerate() {
         let v0 = versions(&rb);
         let res = api_call(&mgr_b, &ops_b[*t][*i]);
         let flag = if versions(&rb) != v0 { "+cmd" } else { "" };
         results.insert((*t, *i), format!("{res}{flag}"));
+        if pumps.get(pos).copied().unwrap_or(false) {
+            let _ = rb.exec_pump();
+            if rb.dead.is_some() {
+                break
+            }
+            rb.world.inst(0).enter();
+        }
     }
     let audit = audit_records(&rb, &before_b);
     if profile.with_scheduler {
